@@ -17,10 +17,24 @@
     `(v, frame of the stroke)` is appended iff `v` was not a node. (What is missing for the full
     `C07_step` for paint is the purely combinatorial step "SegOK s ∧ PaintPre ⟹ the pair
     (painted array, paintSkel) satisfies SegOK"; see the comment at the theorem.)
-  * `C07_step_addNode`, `C07_step_delNode`, `C07_step_updSeg`, `C07_step_noarray` — `SegOK` is
-    preserved by each primitive under its documented precondition.
-  * `C07_undo_bits_updSeg / _delNode / _addNode` — inverting a recorded array-writing primitive
+  * `C07_step_addNode`, `C07_step_delNode`, `C07_step_noarray` — `SegOK` is preserved by the
+    primitives AddNode / DeleteNode under their documented preconditions and by everything that
+    does not write the array.
+  * `C07_undo_bits_updSeg`, `C07_undo_bits_delNode` — inverting a recorded array-writing primitive
     restores the array bit for bit, with the exact precondition in each case.
+
+  Not proved (statements):
+  * `C07_step_updSeg`: `SegOK` through the primitive UpdateNodeSeg (grow: pixels in the node's
+    frame carrying 0 or the label; shrink: pixels carry the label and one pixel of the node
+    remains).
+  * `C07_undo_bits_addNode`: inverting a recorded `addNode r (some px)` (= DeleteNode r.id with the
+    pixels recomputed from the array) restores the array iff `px` was background, lies in frame
+    `r.time`, and no cell of that frame carried `r.id` before.
+  * `C07_undo_bits` for the whole record list of a paint: needs, besides the two lemmas above, that
+    the inverses of the graph-only records (updTid, delEdge, addEdge) of the nested delete-node /
+    add-node succeed (C01 territory); conditional on `invGroup` returning `.ok`, the array part
+    follows from `C07_undo_bits_*` applied right-to-left because the groups of a stroke are
+    disjoint and every group pixel is in the stroke.
 -/
 import FtProofs.SegLemmas
 open Ft Ft.St List
@@ -30,7 +44,7 @@ namespace Ft.St
 /-- the (id, time) skeleton after an accepted paint of value `v` over `groups`, computed from the
     PAINTED array `gP` and the old skeleton `k` -/
 def paintSkel (gP : Seg) (k : List (Node × Nat)) (v : Nat) (groups : List Grp) : List (Node × Nat) :=
-  let ak := groups.foldl absStep (gP, k)
+  let ak := groups.foldl segAbsStep (gP, k)
   if v ≠ 0 ∧ groups ≠ [] then
     if v ∈ ak.2.map (·.1) then ak.2
     else ak.2 ++ [(v, ((groups.flatMap (·.1)).head?.getD 0) / gP.frame)]
@@ -73,7 +87,7 @@ theorem C07_pixels (g : Seg) (t l p : Nat) :
     (l ≠ 0 → p ∈ g.pixelsOf t l → p < g.data.length) := by
   refine ⟨Seg.mem_pixelsOf, fun hl hp => ?_⟩
   have := (Seg.mem_pixelsOf.mp hp).2.2
-  exact getD_ne_zero_lt (by rw [this]; exact hl)
+  exact getD_ne_zero_lt_sg (by rw [this]; exact hl)
 
 example : exC07g.pixelsOf 1 2 = [4, 5, 6] ∧ exC07g.pixelsOf 0 2 = [] := by decide
 #print axioms C07_pixels
@@ -95,17 +109,17 @@ example : exC07.getPixels 2 = some [4, 5, 6] := by decide
 theorem C07_as_painted (s s' : St) (v : Nat) (groups : List (List Pix × Nat)) (tid : Nat) (force : Bool)
     (g : Seg) (hg : s.seg = some g) (h : s.step (.paint v groups tid force) = (s', .ok)) :
     s'.seg = some (g.setPixels (groups.flatMap (·.1)) v) := by
-  obtain ⟨recs, hok, hseg, -, -⟩ := paint_ok hg h
+  obtain ⟨recs, hok, hseg, -, -⟩ := paint_ok_sg hg h
   rw [hseg]
   generalize hP : g.setPixels (groups.flatMap (·.1)) v = P at hok ⊢
   have hPget : ∀ i, P.data.getD i 0
       = if i ∈ groups.flatMap (·.1) ∧ i < g.data.length then v else g.data.getD i 0 := by
     intro i; rw [← hP]; exact Seg.setPixels_getD ..
   have hPlen : P.data.length = g.data.length := by rw [← hP]; exact Seg.setPixels_length ..
-  obtain ⟨k1, k2⟩ := uUpdateSeg_ok (s := s.withSeg P) (g := P) rfl hok
-  obtain ⟨f1, f2⟩ := foldl_absStep_frame groups (P, (s.withSeg P).skel)
-  have hz := foldl_absStep_getD groups (P, (s.withSeg P).skel)
-  generalize groups.foldl absStep (P, (s.withSeg P).skel) = ak at k1 k2 f1 f2 hz
+  obtain ⟨k1, k2⟩ := uUpdateSeg_ok_sg (s := s.withSeg P) (g := P) rfl hok
+  obtain ⟨f1, f2⟩ := foldl_segAbsStep_frame groups (P, (s.withSeg P).skel)
+  have hz := foldl_segAbsStep_getD groups (P, (s.withSeg P).skel)
+  generalize groups.foldl segAbsStep (P, (s.withSeg P).skel) = ak at k1 k2 f1 f2 hz
   simp only at f1 f2 hz
   have hsub : ∀ i, (∃ grp ∈ groups, grp.2 ≠ 0 ∧ i ∈ grp.1) → i ∈ groups.flatMap (·.1) := by
     rintro i ⟨grp, hm, -, hi⟩
@@ -167,11 +181,11 @@ theorem C07_step_paint_partial (s s' : St) (v : Nat) (groups : List (List Pix ×
     s'.seg = some (g.setPixels (groups.flatMap (·.1)) v) ∧
     s'.skel = paintSkel (g.setPixels (groups.flatMap (·.1)) v) s.skel v groups := by
   refine ⟨C07_as_painted s s' v groups tid force g hg h, ?_⟩
-  obtain ⟨recs, hok, -, hnodes, -⟩ := paint_ok hg h
+  obtain ⟨recs, hok, -, hnodes, -⟩ := paint_ok_sg hg h
   have hsk : s'.skel = ((s.withSeg (g.setPixels (groups.flatMap (·.1)) v)).uUpdateSeg v groups tid force).1.1.skel := by
     simp only [St.skel, hnodes]
   rw [hsk]
-  obtain ⟨k1, k2⟩ := uUpdateSeg_ok (s := s.withSeg (g.setPixels (groups.flatMap (·.1)) v))
+  obtain ⟨k1, k2⟩ := uUpdateSeg_ok_sg (s := s.withSeg (g.setPixels (groups.flatMap (·.1)) v))
     (g := g.setPixels (groups.flatMap (·.1)) v) rfl hok
   unfold paintSkel
   simp only [withSeg_skel] at k1 k2
@@ -199,7 +213,7 @@ theorem C07_undo_bits_updSeg (s s1 s1' s2 : St) (n : Node) (px : List Pix) (adde
     (h1 : s.pUpdSeg n px added = .ok (s1, rec)) (hsame : s1'.seg = s1.seg)
     (h2 : s1'.invPrim rec = .ok (s2, rec')) : s2.seg = s.seg := by
   obtain ⟨e1, -, -⟩ := pUpdSeg_seg_skel h1 hg
-  obtain ⟨-, -, -, hrec, -⟩ := pUpdSeg_ok h1
+  obtain ⟨-, -, -, hrec, -⟩ := pUpdSeg_ok_sg h1
   subst hrec
   simp only [invPrim] at h2
   obtain ⟨e2, -, -⟩ := pUpdSeg_seg_skel h2 (hsame.trans e1)
@@ -224,11 +238,11 @@ theorem C07_undo_bits_delNode (s s1 s1' s2 : St) (n : Node) (pixels : Option (Li
     (hpre : ∀ px, pixels = some px → ∀ p ∈ px, p < g.data.length → g.data.getD p 0 = n)
     (h1 : s.pDelNode n pixels = .ok (s1, rec)) (hsame : s1'.seg = s1.seg)
     (h2 : s1'.invPrim rec = .ok (s2, rec')) : s2.seg = s.seg := by
-  obtain ⟨r, hr, hrec, hs1⟩ := pDelNode_ok h1
-  have hid : r.id = n := findNode_id hr
+  obtain ⟨r, hr, hrec, hs1⟩ := pDelNode_ok_sg h1
+  have hid : r.id = n := findNode_id_sg hr
   subst hrec
   simp only [invPrim] at h2
-  obtain ⟨-, -, hs2⟩ := pAddNode_ok h2
+  obtain ⟨-, -, hs2⟩ := pAddNode_ok_sg h2
   have hseg1 : s1.seg = (s.paintWith (s.delPixels n pixels) 0).seg := by
     rw [hs1]; exact (Fr.trackOnDelete _ _).seg
   have hseg2 : s2.seg = (s1'.paintWith (s.delPixels n pixels) n).seg := by
@@ -273,3 +287,62 @@ example : ∃ s1 r s2 r', exC07.pDelNode 3 none = .ok (s1, r) ∧ s1.invPrim r =
     s1.seg = some { frame := 4, data := [1, 1, 0, 0, 2, 2, 2, 0] } ∧ s2.seg = exC07.seg :=
   ⟨_, _, _, _, rfl, rfl, by decide, by decide⟩
 #print axioms C07_undo_bits_delNode
+
+/-- `SegOK` is preserved by the primitive AddNode of a new node with pixels: the pixels lie in the
+    node's frame, at least one is in range, and they are background (or already carry the label). -/
+theorem C07_step_addNode (s s' : St) (r : NodeRec) (px : List Pix) (rec : PrimRec) (g : Seg)
+    (hg : s.seg = some g) (hpos : 0 < g.frame) (h0 : ∀ r' ∈ s.nodes, r'.id ≠ 0)
+    (hnew : s.hasNode r.id = false)
+    (hbg : ∀ p ∈ px, p < g.data.length → g.data.getD p 0 = 0 ∨ g.data.getD p 0 = r.id)
+    (hfr : ∀ p ∈ px, p < g.data.length → p / g.frame = r.time)
+    (hne : ∃ p ∈ px, p < g.data.length) (hs : SegOK s)
+    (h : s.pAddNode r (some px) = .ok (s', rec)) : SegOK s' := by
+  obtain ⟨e1, e2⟩ := pAddNode_seg_skel h hg hnew
+  rw [segOK_iff_skel] at hs ⊢
+  intro g' hg'
+  rw [e1] at hg'; cases hg'
+  rw [e2]
+  exact segOKk_add (hs g hg) hpos (skel_ne_zero h0) hbg hfr hne (skel_ne_of_hasNode_false hnew)
+
+example : ∃ s' r, exC07.pAddNode { id := 5, time := 1, tid := 3, lin := some 3 } (some [7]) = .ok (s', r) ∧
+    s'.seg = some { frame := 4, data := [1, 1, 0, 3, 2, 2, 2, 5] } ∧ s'.ids = [1, 2, 3, 5] ∧
+    exC07.hasNode 5 = false ∧ SegOK exC07 :=
+  ⟨_, _, rfl, by decide, by decide, by decide, exC07_segOK⟩
+#print axioms C07_step_addNode
+
+/-- `SegOK` is preserved by the primitive DeleteNode when the zeroed pixels are exactly the cells
+    that carry the node's label (they may already be background). -/
+theorem C07_step_delNode (s s' : St) (n : Node) (pixels : Option (List Pix)) (px : List Pix)
+    (rec : PrimRec) (g : Seg) (hg : s.seg = some g) (h0 : ∀ r' ∈ s.nodes, r'.id ≠ 0)
+    (hdp : s.delPixels n pixels = some px)
+    (hcover : ∀ i, i < g.data.length → g.data.getD i 0 = n → i ∈ px)
+    (honly : ∀ p ∈ px, p < g.data.length → g.data.getD p 0 = n ∨ g.data.getD p 0 = 0)
+    (hs : SegOK s) (h : s.pDelNode n pixels = .ok (s', rec)) : SegOK s' := by
+  obtain ⟨e1, e2⟩ := pDelNode_seg_skel' h hg hdp
+  rw [segOK_iff_skel] at hs ⊢
+  intro g' hg'
+  rw [e1] at hg'; cases hg'
+  rw [e2]
+  exact segOKk_del (hs g hg) (skel_ne_zero h0) hcover honly
+
+example : ∃ s' r, exC07.pDelNode 3 none = .ok (s', r) ∧ exC07.delPixels 3 none = some [3] ∧
+    s'.seg = some { frame := 4, data := [1, 1, 0, 0, 2, 2, 2, 0] } ∧ s'.ids = [1, 2] :=
+  ⟨_, _, rfl, by decide, by decide, by decide⟩
+#print axioms C07_step_delNode
+
+/-- `SegOK` is preserved by every primitive that does not write the array (AddEdge, DeleteEdge,
+    UpdateTrackIDs), by the whole of `uDeleteEdge`, and by the track-neighbour query. -/
+theorem C07_step_noarray (s s' : St) (rec : PrimRec) (hs : SegOK s)
+    (h : (∃ e attrs, s.pAddEdge e attrs = .ok (s', rec)) ∨ (∃ e, s.pDelEdge e = .ok (s', rec)) ∨
+         (∃ start newT newL, s.pUpdTid start newT newL = .ok (s', rec)) ∨
+         (∃ e, s' = (s.uDeleteEdge e).1) ∨ (∃ tid t, s' = (s.trackNeighbors tid t).1)) : SegOK s' := by
+  rcases h with ⟨e, attrs, h⟩ | ⟨e, h⟩ | ⟨start, newT, newL, h⟩ | ⟨e, rfl⟩ | ⟨tid, t, rfl⟩
+  · exact (FsPrim.pAddEdge e attrs s s' rec h).segOK hs
+  · exact (FsPrim.pDelEdge (fun _ => e) s s' rec h).segOK hs
+  · exact (Fr.pUpdTid h).toFs.segOK hs
+  · exact (Fs.uDeleteEdge s e).segOK hs
+  · exact (Fr.trackNeighbors s tid t).toFs.segOK hs
+
+example : ∃ s' r, exC07.pDelEdge (1, 2) = .ok (s', r) ∧ s'.edges = [] ∧ SegOK exC07 :=
+  ⟨_, _, rfl, by decide, exC07_segOK⟩
+#print axioms C07_step_noarray
